@@ -24,6 +24,10 @@ func init() {
 			{Name: "split", Variant: "plain", N: core.Tiered(17*90, 17*3000), Run: func(c *core.Ctx) { c06Split(c, false) }},
 			// the same comparison with the chained segments run on caller-owned C memory (cdata views on guarded
 			// buffers), the way libopenwater's RunSingleModel hot-starts: Unroll() copies there instead of aliasing
+			// simulation-length periods (2100-6000 steps; Storage: enough steps for more than a million sub-steps in the single
+			// call) cut into a few long segments: whatever a Run call counts, caches or compacts per call behaves differently
+			// in one long call than in several shorter ones
+			{Name: "split-long", Variant: "plain", N: core.Tiered(17*2, 17*40), Run: func(c *core.Ctx) { c06SplitX(c, false, true) }, TimeoutS: 900},
 			{Name: "split-cbacked", Variant: "plain", N: core.Tiered(17*36, 17*600), Run: func(c *core.Ctx) { c06Split(c, true) }},
 		},
 	})
@@ -70,13 +74,19 @@ func minInt(a, b int) int {
 	return b
 }
 
-func c06Split(c *core.Ctx, cmem bool) {
+func c06Split(c *core.Ctx, cmem bool) { c06SplitX(c, cmem, false) }
+
+func c06SplitX(c *core.Ctx, cmem, long bool) {
 	models := statefulModels()
 	model := models[c.Idx%len(models)]
 	N := []int{1, 2, 3}[c.R.Intn(3)]
 	T := c.R.IntRange(2, 60)
 	if c.R.Bool(0.3) {
 		T = c.R.IntRange(20, 120)
+	}
+	if long {
+		T = c.R.IntRange(2100, 6000)
+		N = 1
 	}
 	wc := 0
 	if needsWidthClass(model) {
@@ -85,6 +95,19 @@ func c06Split(c *core.Ctx, cmem bool) {
 	run := GenRun(model, c.R, N, N, N, T, wc)
 	kind, splits := splitSchedule(c.R, T)
 	hot := c.R.Bool(0.5)
+	if long {
+		// a few long segments
+		splits = nil
+		for k := c.R.IntRange(1, 3); k > 0; k-- {
+			splits = append(splits, c.R.IntRange(200, T-200))
+		}
+		sort.Ints(splits)
+		kind = "long-segments"
+		if model == "Storage" {
+			run = storageTrackingRun(c.R, T)
+			hot = false
+		}
+	}
 	var warm *MRun
 	if hot {
 		warm = GenRun(model, c.R, N, N, N, c.R.IntRange(5, 20), wc)
